@@ -5,7 +5,8 @@
    are functions of that reading. *)
 From Coq Require Import List Arith ZArith Bool Permutation.
 Import ListNotations.
-From GG Require Import Schema Schema_perm.
+From Coq Require Import Sorted.
+From GG Require Import Schema Schema_perm Listing.
 
 (* Order: every permutation of the definitions (and extensions) is accepted or refused alike. *)
 Theorem C16_order_accept :
@@ -68,3 +69,38 @@ Example C16_example_split :
   splits (mk false [f 10; f 11]) (mk false [f 10]) (mk true [f 11]) /\
   ok [mk false [f 10; f 11]] = true /\ ok [mk true [f 11]; mk false [f 10]] = true.
 Proof. vm_compute. repeat split; try reflexivity; discriminate. Qed.
+
+(* The order in which a root lists its types and directives (Root.Types(), Root.Directives(),
+   __schema{types directives}): by rank, then by name in byte order — a function of the set of
+   definitions, whatever the order or partition in which they arrived.  `coherent`: one definition
+   per name in a table. *)
+Theorem C16_listing_is_arrangement_independent :
+  forall a b : list entry, Permutation a b -> coherent a -> listing a = listing b.
+Proof. exact listing_canonical. Qed.
+Print Assumptions C16_listing_is_arrangement_independent.
+
+Theorem C16_listing_sorted_permutation :
+  forall l : list entry, StronglySorted le_prop (listing l) /\ Permutation l (listing l).
+Proof. intros l. split; [apply listing_sorted|apply listing_perm]. Qed.
+Print Assumptions C16_listing_sorted_permutation.
+
+(* the check applied to the lists the library returns: a list passes exactly when it is in that order,
+   and then it IS the listing of any arrangement of its entries *)
+Theorem C16_listed_check :
+  forall l : list entry, listed_okb l = true <-> StronglySorted le_prop l.
+Proof. exact listed_okb_spec. Qed.
+Print Assumptions C16_listed_check.
+
+Theorem C16_listed_check_canonical :
+  forall l a : list entry, listed_okb l = true -> Permutation a l -> coherent a -> listing a = l.
+Proof.
+  intros l a H Hp Hc. apply listed_okb_spec in H.
+  rewrite (listing_canonical a l Hp Hc). now apply listing_fixpoint.
+Qed.
+Print Assumptions C16_listed_check_canonical.
+
+(* Non-vacuity: names that differ by case only are told apart (byte order), operation types come first *)
+Example C16_listing_example :
+  listing [(0, [116; 49]); (1, [84; 49]); (0, [84; 49; 48]); (1, n_Query); (4, [69])]
+  = [(1, n_Query); (1, [84; 49]); (4, [69]); (0, [84; 49; 48]); (0, [116; 49])].
+Proof. vm_compute. reflexivity. Qed.
